@@ -1,7 +1,10 @@
 from pyparsing import ParseException, ParseSyntaxException
 from .grammar import line as line_rule
 from .program import Program
-from .stmt import Block
+from .stmt import (
+    Block, IfBeginStmt, ElseStmt, ElseIfStmt, SelectStmt, CaseStmt,
+    CaseElseStmt,
+)
 from .exceptions import SyntaxError
 
 
@@ -49,6 +52,20 @@ def parse_string(input_string):
                 prev_body.append(block)
                 cur_block_body = prev_body
             else:
+                # ELSE / ELSEIF / CASE belong directly to an IF or
+                # SELECT CASE block
+                owner = None
+                if isinstance(stmt, (ElseStmt, ElseIfStmt)):
+                    owner = IfBeginStmt
+                elif isinstance(stmt, (CaseStmt, CaseElseStmt)):
+                    owner = SelectStmt
+                if owner is not None and (
+                        not entered_blocks or
+                        not isinstance(entered_blocks[-1][0], owner)):
+                    raise SyntaxError(
+                        loc=stmt.loc_start,
+                        msg=(f'{stmt.node_name()} without '
+                             f'{owner.node_name()}'))
                 cur_block_body.append(stmt)
 
         line_loc += len(line) + 1
